@@ -30,4 +30,24 @@ class C05(Prop):
         return plan
 
 
+    def judge(self, plan, res):
+        r = res["main"]
+        viol = []
+        reached = False
+        for op, out in zip(plan["ops"], r.get("outcomes") or []):
+            if op["op"] != "solve":
+                continue
+            reached = reached or bool(out.get("ncalls"))
+            injected = bool(op.get("faults")) or bool((op.get("peer") or {}).get("script")) or op.get("nojudge")
+            lic = ((op.get("env") or {}).get("licence") or {})
+            known_wrapper = op["cfg"].get("wrapper", "cvxpy").lower() in ("cvxpy", "mosek")
+            if out.get("status") == "exc" and not injected and not out.get("ncalls") and known_wrapper \
+                    and not lic.get("expire_after_checks"):
+                # a legal model, no fault injected, and nothing reached the solver
+                viol.append({"oracle": "O-DELIVERY", "signature": "declared-model-does-not-reach-the-solver:" + str(out.get("exc_type")),
+                             "detail": {"msg": out.get("msg"), "wrapper": op["cfg"].get("wrapper")}})
+                break
+        return viol, {"nontrivial": reached, "noverdict": not reached}
+
+
 PROP = C05()
